@@ -74,6 +74,73 @@ def task_pickup_under_lock():
     return 'bool', 'false'
 
 
+def _norm(node):
+    return src(node).replace(' ', '').replace('(', '').replace(')', '')
+
+
+def pickup_reads_under_lock():
+    """cycle: every store to the local `action` and every store to self.next_task is the one statement
+    `action, self.next_task = self.next_task, None`, and that statement is inside `with self._lock` - i.e. the read of
+    next_task that decides what is picked up happens under the lock together with the clearing (the unlocked
+    `if self.next_task:` only decides whether to look)"""
+    f = find_func(_sm(), 'cycle')
+    locked = set()
+    for w in with_lock_bodies(f, '_lock'):
+        for a in walk_type(w, ast.Assign):
+            locked.add(id(a))
+    stmts = {}
+    for node in ast.walk(f):
+        stored = False
+        if isinstance(node, ast.Name) and node.id == 'action' and isinstance(node.ctx, (ast.Store, ast.Del)):
+            stored = True
+        if isinstance(node, ast.Attribute) and node.attr == 'next_task' and isinstance(node.ctx, (ast.Store, ast.Del)):
+            stored = True
+        if stored:
+            stmts[id(node)] = node
+    if not stmts:
+        raise Shape('cycle: no store to `action` / self.next_task found')
+    # every such store must sit in an Assign that is the pick-up statement under the lock
+    assigns = [a for a in walk_type(f, ast.Assign)]
+    covered = set()
+    good = 0
+    for a in assigns:
+        inside = {id(n) for t in a.targets for n in ast.walk(t)}
+        mine = inside & set(stmts)
+        if not mine:
+            continue
+        if _norm(a) == 'action,self.next_task=self.next_task,None' and id(a) in locked:
+            covered |= mine
+            good += 1
+    # reads of `action` before... any other binding form (walrus, for target, with-as, augmented) is not covered
+    ok = covered == set(stmts) and good == 1
+    # ... and what is entered afterwards is what was read there
+    text = src(f).replace(' ', '')
+    uses = all(x in text for x in ('ifisinstance(action,Start):', 'self._new_state(action.newstate)',
+                                   'self._update_attributes(action.kwds)'))
+    return 'bool', cbool(ok and uses)
+
+
+def next_task_written_only_by_start_stop_cycle():
+    """in frappy/lib/statemachine.py the attribute next_task is stored only in StateMachine.start, .stop and .cycle
+    (the class-level default `next_task = None` is a Name store, not an attribute store)"""
+    tree = parse(F)
+    where = set()
+
+    def visit(node, fn):
+        for ch in ast.iter_child_nodes(node):
+            name = ch.name if isinstance(ch, (ast.FunctionDef, ast.AsyncFunctionDef)) else fn
+            if isinstance(ch, ast.Attribute) and ch.attr == 'next_task' and isinstance(ch.ctx, (ast.Store, ast.Del)):
+                where.add(fn)
+            if isinstance(ch, ast.Call) and isinstance(ch.func, ast.Name) and ch.func.id in ('setattr', 'delattr'):
+                if len(ch.args) >= 2 and isinstance(ch.args[1], ast.Constant) and ch.args[1].value == 'next_task':
+                    where.add(fn)
+            visit(ch, name)
+    visit(tree, None)
+    if not where:
+        raise Shape('no store to next_task found at all')
+    return 'bool', cbool(where <= {'start', 'stop', 'cycle'})
+
+
 def _only_posts(fname, cls):
     f = find_func(_sm(), fname)
     assigns = [a for a in walk_type(f, ast.Assign) if any(is_self_attr(t, 'next_task') for t in a.targets)]
@@ -135,6 +202,19 @@ def start_resets_idle_status():
     return 'bool', cbool(0 <= pos_default < pos_start)
 
 
+def start_assigns_idle_status():
+    """HasStates.start_machine stores to <something>.idle_status itself (it must not: the reset has to travel with the
+    start request and be applied when the new run is picked up)"""
+    f = find_func(find_class(parse(S), 'HasStates'), 'start_machine')
+    for node in ast.walk(f):
+        if isinstance(node, ast.Attribute) and node.attr == 'idle_status' and isinstance(node.ctx, (ast.Store, ast.Del)):
+            return 'bool', 'true'
+        if isinstance(node, ast.Call) and isinstance(node.func, ast.Name) and node.func.id == 'setattr' \
+                and len(node.args) >= 2 and isinstance(node.args[1], ast.Constant) and node.args[1].value == 'idle_status':
+            return 'bool', 'true'
+    return 'bool', 'false'
+
+
 def hasstates_shapes():
     """the statements of states.py the HasStates model transliterates"""
     c = find_class(parse(S), 'HasStates')
@@ -163,7 +243,8 @@ def hasstates_shapes():
     return 'bool', cbool(okst and ok2 and ok3 and ok4 and ok5 and ok6)
 
 
-FACTS = [status_idle, status_busy, status_error, start_resets_idle_status, hasstates_shapes, maxloops, outer_rounds, inner_loop_is_range_maxloops, cleanup_swap_under_lock,
+FACTS = [status_idle, status_busy, status_error, start_resets_idle_status, start_assigns_idle_status,
+         pickup_reads_under_lock, next_task_written_only_by_start_stop_cycle, hasstates_shapes, maxloops, outer_rounds, inner_loop_is_range_maxloops, cleanup_swap_under_lock,
          task_pickup_under_lock, start_only_posts, stop_only_posts]
 
 FINGERPRINTS = {
